@@ -14,3 +14,25 @@ package ast
 
 //@ func (Node).Pos
 //@   assumed A-int: position of a node; reads only
+
+// ---- C07: a regular field never turns into a definition or hidden field in the printed text ----
+// A regular (string) label is printed as a bare identifier only if that is safe:
+// a name starting with '#' or '_' would be read back as a definition or a hidden
+// field, so it must be quoted; so must every name that is not a valid identifier.
+//@ func IsValidIdent
+//@   assumed A-int: the identifier grammar (letters, digits, _ and $, not starting with a digit); its loop ranges over runes, outside the subset
+//@   pure
+//@ func (literal.Form).Quote
+//@   assumed A-int: quoting (its escaping functions are verified under cue/literal)
+//@ func StringLabelNeedsQuoting
+//@   pure
+//@   ensures [sigil] len(name) > 0 && (name[0] == '#' || name[0] == '_') ==> result
+//@   ensures [invalid] !IsValidIdent(name) ==> result
+//@   ensures [only] result ==> (len(name) > 0 && (name[0] == '#' || name[0] == '_')) || !IsValidIdent(name)
+//@ func NewString
+//@   ensures result != nil && fresh(result) && result.Kind == token.STRING
+//@   assigns heap
+//@ func NewStringLabel
+//@   ensures [quoted] StringLabelNeedsQuoting(name) ==> isType(result, *BasicLit) && result.(*BasicLit).Kind == token.STRING
+//@   ensures [bare] !StringLabelNeedsQuoting(name) ==> isType(result, *Ident)
+//@   assigns heap
